@@ -178,6 +178,11 @@ class Fn:
         # function returns the tuple (a, b) of their final values (a read before the first write is an unbound
         # Gallina variable = broken tie)
         self.outp = list(cfg.get('out_params', {}).get(self.name, []))
+        # C18: "deref_out_params": {"F": ["p"]} -- an OPTIONAL pointer out-parameter (`size_t* p = nullptr`): p itself stays an input
+        # (Z, 0 = nullptr, so `p != nullptr` translates as usual); `*p = v` assigns the extra result p_out (0 when never written)
+        self.deref_out = list(cfg.get('deref_out_params', {}).get(self.name, []))
+        for dn_ in self.deref_out:
+            self.outp.append(dn_ + '_out'); self.env[dn_ + '_out'] = ('u', 64)
         for p in decl.get('inner', []):
             if p['kind'] == 'ParmVarDecl':
                 nm = p.get('name')
@@ -467,6 +472,8 @@ class Fn:
                 return f'({"fst" if nm == "first" else "snd"} {bn})'
         if base['kind'] in ('CallExpr', 'CXXMemberCallExpr') and nm in ('first', 'second'):
             return f'({"fst" if nm == "first" else "snd"} {self.e(base)})'
+        if nm == '' and self.ctx.cfg.get('member_prims') and n.get('inner'):   # C10: member of an ANONYMOUS union/struct (InsertResult::{position|iterator}): transparent
+            return self.e(n['inner'][0])
         mp_ = self.ctx.cfg.get('member_prims', {}).get(nm)   # C06: "member_prims": {"first": "key_of_elem"}: a data member of an opaque value
         if mp_ is not None:
             return f'({mp_} {self.e(base)})'
@@ -537,7 +544,15 @@ class Fn:
         if prim is not None:
             obj_ = []
             if nm in self.ctx.cfg.get('object_prims', []) and c.get('kind') == 'MemberExpr':   # C06: "object_prims": the implicit object is the first argument (conversion operators, keyIter->GetCount())
-                obj_ = [self.e(c['inner'][0])]
+                ob0_ = skip_wrappers(c['inner'][0])
+                while ob0_.get('kind') == 'ImplicitCastExpr' and ob0_.get('inner') and self.ctx.cfg.get('object_fields'):   # C10: const / base casts of the object
+                    ob0_ = skip_wrappers(ob0_['inner'][0])
+                if ob0_.get('kind') == 'CXXThisExpr' and (self.ctx.cfg.get('object_fields') or {}).get('this'):   # C10: implicit `this` as the object of an object_prim
+                    obj_ = [self.ctx.cfg['object_fields']['this']]
+                elif ob0_.get('kind') == 'DeclRefExpr' and (self.ctx.cfg.get('object_fields') or {}).get(ob0_.get('referencedDecl', {}).get('name')):   # C10: a by-reference object parameter
+                    obj_ = [self.ctx.cfg['object_fields'][ob0_['referencedDecl']['name']]]
+                else:
+                    obj_ = [self.e(c['inner'][0])]
             dfl_ = list(self.ctx.cfg.get('prim_defaults', {}).get(nm, []))   # C06: "prim_defaults": {"MakeIterator": ["0"]}: literal text for defaulted arguments; otherwise they are dropped (std::next(it))
             argt_ = []
             for a in args:
@@ -739,6 +754,10 @@ class Fn:
         lt = ctype(ln)
         if op == ',':
             raise TranslationError('comma operator')
+        if op in ('==', '!=') and self.ctx.cfg.get('this_identity'):   # C10: `this == &param`: object identity is the configured Gallina bool
+            kinds_ = {skip_wrappers(ln).get('kind'), skip_wrappers(rn).get('kind')}
+            if 'CXXThisExpr' in kinds_ and 'UnaryOperator' in kinds_:
+                return self.ctx.cfg['this_identity'] if op == '==' else f"(negb {self.ctx.cfg['this_identity']})"
         a = self.e(ln); b = self.e(rn)
         if op in cmpm or op == '!=':
             if lt[0] == 'bool':
@@ -1047,6 +1066,11 @@ class Fn:
             return l['referencedDecl']['name']
         if l['kind'] == 'MemberExpr':
             return self.member(l)
+        if l['kind'] == 'UnaryOperator' and l.get('opcode') == '*':   # C18: deref_out_params
+            t_ = skip_wrappers(l['inner'][0])
+            while t_.get('kind') == 'ImplicitCastExpr': t_ = skip_wrappers(t_['inner'][0])
+            if t_.get('kind') == 'DeclRefExpr' and t_['referencedDecl']['name'] in getattr(self, 'deref_out', ()):
+                return t_['referencedDecl']['name'] + '_out'
         raise TranslationError('assignment target ' + l['kind'])
 
     def ref_alias_base(self, v):
@@ -1204,6 +1228,9 @@ class Fn:
                 if self.ret_ct[0] == 'void':   # C20: `return f(x);` in a void function is `f(x); return;`
                     return self.expr_stmt(s['inner'][0], lambda: jc['ret']('tt'))
                 return self.ret_stmt(s['inner'][0], jc)
+            pfv_ = (self.ctx.cfg.get('prefix', {}).get(self.name) or {}).get('return_void_as')   # C05: a bare `return;` inside a prefix translation
+            if pfv_:
+                return jc['ret'](pfv_)
             return jc['ret']('tt')
         if kind == 'GallinaReturn':   # C09: synthetic return of a "prefix" translation
             for nm in re.findall(r'\w+', s['text']):
@@ -2004,6 +2031,8 @@ class Fn:
             else:
                 jc['ret'] = lambda v: f'RETURN[{self.tup(self.outp)}]'
         txt = self.stmts([body], lambda: jc['ret']('true' if self.fails_mode else 'tt'), jc)   # C04: completed flag
+        for dn_ in getattr(self, 'deref_out', ()):   # C18
+            txt = f'let {dn_}_out := (0) in\n' + txt
         if self.ctx.cfg.get('ctor_inits'):
             # C14: "ctor_inits": true -- member initialisers of a constructor (`: mData(nullptr)`) for configured scalar fields are
             # executed before the body (in declaration order as clang lists them); other initialisers are an error
@@ -2283,6 +2312,16 @@ def translate_group(cfg, ast_text=None, repo='/repo'):
         tmp.static_const(cn, d)
     out = ['(* GENERATED by tools/cxx2coq.py from %s (class %s) -- do not edit *)' % (os.path.basename(cfg['tu']), cfg['class']),
            PRELUDE_IMPORT + ''.join(l + '\n' for l in cfg.get('imports', []))]   # C16: "imports": extra Require lines
+    # C20: "noexcept_flags": ["select_on_container_copy_construction", ...]: emit `Definition <name>_noexcept : bool` = whether the
+    # member function of the specialization is declared noexcept (taken from its type in the AST); all overloads must agree
+    for nn_ in cfg.get('noexcept_flags', []):
+        ds_ = method_decls(spec, nn_)
+        if not ds_:
+            raise TranslationError('noexcept_flags: no member function %s in specialization %s' % (nn_, cfg['class']))
+        fl_ = set(bool(re.search(r'\bnoexcept\b(?!\s*\(\s*false)', d_.get('type', {}).get('qualType', ''))) for d_ in ds_)
+        if len(fl_) != 1:
+            raise TranslationError('noexcept_flags: overloads of %s differ' % nn_)
+        out.append('Definition %s_noexcept : bool := %s.\n' % (nn_, 'true' if fl_.pop() else 'false'))
     sym = [c for c in ctx.const_order if ctx.consts[c][1] is None]
     conc = [c for c in ctx.const_order if ctx.consts[c][1] is not None]
     sec = cfg['name'] + '_sec'
